@@ -46,4 +46,19 @@ __CPROVER_assigns(jwt_ops)
 __CPROVER_ensures((g_env_value != NULL && IS_GNUTLS_NAME(g_env_value)) ==> jwt_ops == &jwt_gnutls_ops)
 __CPROVER_ensures(!(g_env_value != NULL && IS_GNUTLS_NAME(g_env_value)) ==> jwt_ops == &jwt_openssl_ops)
 ;
+
+/* the getters report the current provider (one of the two compiled-in tables) and write nothing */
+#define REQ_CUR_OPS __CPROVER_requires(jwt_ops == &jwt_openssl_ops || jwt_ops == &jwt_gnutls_ops)
+const char *contract_C12_jwt_get_crypto_ops(void)
+REQ_CUR_OPS __CPROVER_assigns()
+__CPROVER_ensures(__CPROVER_return_value == jwt_ops->name)
+;
+jwt_crypto_provider_t contract_C12_jwt_get_crypto_ops_t(void)
+REQ_CUR_OPS __CPROVER_assigns()
+__CPROVER_ensures(__CPROVER_return_value == jwt_ops->provider)
+;
+int contract_C12_jwt_crypto_ops_supports_jwk(void)
+REQ_CUR_OPS __CPROVER_assigns()
+__CPROVER_ensures(__CPROVER_return_value == (jwt_ops->jwk_implemented ? 1 : 0))
+;
 #endif
